@@ -8,7 +8,7 @@ _CACHE = {}
 
 
 class Conv:
-    def __init__(self, ctx):
+    def __init__(self, ctx, tad_term=None):
         self.ctx = ctx
         hb = ctx.role('hours_builder')
         body = ctx.lib.bodies[hb]
@@ -29,6 +29,8 @@ class Conv:
                 nm = body.var_name(i) or f'arg{i}'
             self.arg_names[i] = nm
             args[i - 1] = E.mk_ref(('S', ('param', nm)), ()) if 'ref' in ty else ('param', nm)
+            if nm == 'tad' and tad_term is not None:
+                args[i - 1] = E.mk_ref(('S', tad_term), ())
         self.eng = eng
         tree = eng.call_entry(hb, args)
         lv = list(E.leaves_of(tree))
